@@ -395,6 +395,10 @@ def ray_builders(model, inst, X):
             lambda I, ps=ps: inst(I, 'Huber', ps(), gam),
             [3 * (sig + gam) / a0, (sig + gam) / (4 * a0),
              4 * (sig + gam) / a1, Rat.const(0)], 'ray')
+        # gamma tied to sigma: every threshold is decided
+        B['Huber[%s, gamma = sigma / 2]' % t] = (
+            lambda I, ps=ps: inst(I, 'Huber', ps(), sig / 2),
+            [3 * sig / a0, sig / (4 * a0), 4 * sig / a1, sig / a1], 'ray')
     for w, t in ((None, 'unweighted'), (Rat.const(2), 'weight 2')):
         def sp(w=w, n=4):
             return NSpace((n,), 'float64', w)
@@ -431,7 +435,13 @@ def ray_builders(model, inst, X):
                         'diag(2 sigma / 5, 3 sigma / 10)'),
                        ([4 * sig, zero, zero, sig / 2],
                         'diag(4 sigma, sigma / 2)'),
-                       ([4 * sig, zero, zero, zero], 'rank one')):
+                       ([4 * sig, zero, zero, zero], 'rank one'),
+                       # Q1 diag(4 sigma, 3 sigma) Q2^T with the rational
+                       # rotations Q1 = [[3, -4], [4, 3]] / 5 and
+                       # Q2 = [[5, -12], [12, 5]] / 13
+                       ([sig * Rat.const(a) / 65 for a in
+                         (204, 84, -28, 237)], 'rotated diag(4 sigma, '
+                        '3 sigma)')):
             if et == '2' and pn == 'diag(4 sigma, sigma / 2)':
                 continue          # irrational norm of the singular values
             B['NuclearNorm[singular exp %s, %s]' % (et, pn)] = (
@@ -697,67 +707,90 @@ def _poison(r):
     return False
 
 
-def _guarded(rep, rule, name, rel, line, fn):
-    """Run one evaluation; map the interpreter's outcomes to verdicts.
-    Returns the value of fn() or None."""
+def _outcome(fn):
+    """Run one evaluation; the interpreter's outcomes as a picklable
+    tuple."""
     try:
-        return fn()
+        return ('ok', fn())
     except (Undecided, Fork) as e:
-        rep.undecided(rule, name, str(e), rel)
+        return ('undecided', str(e))
     except ZeroDivisionError:
-        rep.undecided(rule, name, 'the result sits at a point where the '
-                      'value is not differentiable (division by zero in '
-                      'the symbolic derivative)', rel)
+        return ('undecided', 'the result sits at a point where the value '
+                'is not differentiable (division by zero in the symbolic '
+                'derivative)')
     except NotAnElement as e:
-        rep.violation(rule, name, 'a call yields no element: %s' % e, rel)
+        return ('violation', 'a call yields no element: %s' % e, None)
     except PyRaise as e:
         src = ast.unparse(e.node)[:70] if e.node is not None else '?'
+        ln = getattr(e.node, 'lineno', None)
         if e.name == 'ZeroDivisionError':
-            rep.violation(rule, name, 'divides by an entry that is exactly '
-                          'zero at `%s` (NumPy yields inf / nan there, the '
-                          'result is not finite)' % src, rel,
-                          getattr(e.node, 'lineno', None))
-        else:
-            rep.violation(rule, name, 'raises %s at `%s`' % (e.name, src),
-                          rel, getattr(e.node, 'lineno', None))
-    return None
+            return ('violation', 'divides by an entry that is exactly zero '
+                    'at `%s` (NumPy yields inf / nan there, the result is '
+                    'not finite)' % src, ln)
+        return ('violation', 'raises %s at `%s`' % (e.name, src), ln)
+
+
+_JOB = {}
+
+
+def _job(name):
+    model, B = _JOB['model'], _JOB['builders']
+    b, entries, kind = B[name]
+    out = {}
+    if kind != 'ray':
+        def f6():
+            probs, ps, fy = (run_projection(model, b, entries, kind)
+                             if isinstance(kind, tuple)
+                             else run_one(model, b, entries))
+            return probs, _s([repr(v) for v in ps])
+        out['R6'] = _outcome(f6)
+    if kind != 'smooth, no rays':
+        def f6d():
+            probs, ps, nd = run_directional(
+                model, b, entries, coordinate_only=(kind == 'smooth'))
+            return probs, _s([repr(v) for v in ps]), nd
+        out['R6d'] = _outcome(f6d)
+    return name, out
 
 
 def run(rep, model):
+    import multiprocessing as mp
+    import os
+    B = builders(model)
+    _JOB['model'], _JOB['builders'] = model, B
+    names = list(B)
+    try:
+        ctx = mp.get_context('fork')
+        with ctx.Pool(min(16, os.cpu_count() or 1)) as pool:
+            results = pool.map(_job, names, chunksize=1)
+    except (OSError, ValueError):
+        results = [_job(nm) for nm in names]
     n = nray = 0
-    for name, (b, entries, kind) in builders(model).items():
+    for name, out in results:
+        b, entries, kind = B[name]
         rel, line = _where(model, name)
-        if kind != 'ray':
-            n += 1
-            r = _guarded(rep, 'R6', name, rel, line, lambda: (
-                run_projection(model, b, entries, kind)
-                if isinstance(kind, tuple) else run_one(model, b, entries)))
-            if r is not None:
-                probs, ps, fy = r
-                if probs:
-                    rep.violation('R6', name, '; '.join(probs[:2]), rel,
-                                  line)
-                else:
-                    rep.holds('R6', name, '%s at the designated point; '
-                              'p = %s' % (
-                                  'normal-cone condition of the set'
-                                  if isinstance(kind, tuple) else
-                                  'first-order optimality of the proximal '
-                                  'problem', _s([repr(v) for v in ps])))
-        # the directional condition: every instance (coordinate rays only
-        # where the equality above already decides the smooth directions)
-        if kind == 'smooth, no rays':
-            continue
-        nray += 1
-        r = _guarded(rep, 'R6d', name, rel, line, lambda: run_directional(
-            model, b, entries, coordinate_only=(kind == 'smooth')))
-        if r is None:
-            continue
-        probs, ps, nd = r
-        if probs:
-            rep.violation('R6d', name, '; '.join(probs[:2]), rel, line)
-        else:
-            rep.holds('R6d', name, 'f(p) finite and no descent along %d '
-                      'rays from p = %s' % (nd, _s([repr(v) for v in ps])))
+        for rule in ('R6', 'R6d'):
+            if rule not in out:
+                continue
+            if rule == 'R6':
+                n += 1
+            else:
+                nray += 1
+            o = out[rule]
+            if o[0] == 'undecided':
+                rep.undecided(rule, name, o[1], rel)
+            elif o[0] == 'violation':
+                rep.violation(rule, name, o[1], rel, o[2] or line)
+            elif o[1][0]:
+                rep.violation(rule, name, '; '.join(o[1][0][:2]), rel, line)
+            elif rule == 'R6':
+                rep.holds('R6', name, '%s at the designated point; p = %s'
+                          % ('normal-cone condition of the set'
+                             if isinstance(kind, tuple) else
+                             'first-order optimality of the proximal '
+                             'problem', o[1][1]))
+            else:
+                rep.holds('R6d', name, 'f(p) finite and no descent along '
+                          '%d rays from p = %s' % (o[1][2], o[1][1]))
     rep.floor('R6', 'evaluated proximal instances', n, 20)
     rep.floor('R6d', 'instances of the directional condition', nray, 80)
